@@ -181,3 +181,14 @@ TABLE['C07'] = {
     'level_note': 'Mostly bounded; only CompilerCall is a proof.',
 }
 TABLE['C04']['modules'].append('contracts.depfile')
+
+TABLE['C19'] = {
+    'modules': ['contracts.scripts'],
+    'level': 'other',
+    'explanation': 'partial: (proof) add_user_argument registers exactly the names and their --x- aliases and rejects reserved/malformed names, for all name strings; (syntactic proof on the AST) the globals handed to exec() are a fresh two-key dict display; (bounded, real classes) both spellings parse to the same value for plain/enable/with arguments, and push_path keeps the path stack balanced on normal and exceptional exit. Relative path resolution in submodules (relpath/buildpath) and "exported values reach exactly the caller" are not covered.',
+    'assumptions': ['argparse dispatches option strings as documented', 'Python exec() with an explicit globals dict does not share names between calls'],
+    'trusted_base': ['PyVC (pyvc/*.py)', 'z3 5.1.0'],
+    'not_covered': ['builtins/path.py relpath/relname/buildpath', 'core.submodule/export', 'values seen by later regenerations (see C09)'],
+    'level_text': 'Partial claim, see explanation.',
+    'level_note': 'Two small proofs plus bounded runs; most of the property (submodule-relative paths, export flow) is not covered.',
+}
